@@ -11,6 +11,7 @@ TECHNIQUE = ('runtime monitoring: ground-truth oracle from the map generator on 
 RULE = ('synthetic maps 40-400 x 60-600 with 1-8 straight or gently sloped ridges (3 rows thick, strongest in the middle) of length >= 6 px, pointwise vertical separation >= 15 px, random '
         'ascender / descender values, with and without end-point responses, ds in {1,2,3,4,8}; LayoutEngine.detect on non-square images (both aspect orders) with rot 0/1/2/3 and a stub ParseNet. '
         'non-trivial = map with >= 2 ridges or a rotated detection; distinct = hash of the ridge list / stroke list and parameters detect with adaptive resolution on tall text; rotated analysis at factors 4 and 8 on pages whose sides are not multiples; one maps array decoded four times with end-point weight 2. Ridges in row 1 and row H-2; parallel sloped ridges with overlapping boxes; heights below one map pixel.')
+RULE += ' Round 6: One-row ridges; seven-row ridges with vertical connection ranges 1 and 9; negative height responses on half of a ridge.'
 ASSUMPTIONS = ['ridges are 3 map rows thick with the maximum in the middle row (a one-row ridge of probability < 0.9 is eroded by the engine\'s own 3x3 smoothing)',
                'with end-point responses (overlapping one ridge pixel at each end) the ridge is at least 9 px long', 'expected end points ds*(x0-2), ds*(x1+2) within 1.5*ds; vertical position within 0.9*ds; heights within 0.5*ds',
                'lines of the two runs of the rotation clause are matched by nearest end points (the engine orders lines with random jitter)']
